@@ -42,6 +42,11 @@ func maxPid(c *ccase) int {
 func genHistory(r *rng) string {
 	for {
 		c := genChain(r, chainOpts{})
+		if r.chance(1, 6) {
+			// stacks of wrappers returning one type, some with AllowReturnShadowing for it or for another
+			// type: an allowance given to a derived provider must not reach the original
+			c = genShadowMotif(r)
+		}
 		if r.chance(1, 4) {
 			// two concrete types of one Loose'd provider that match an interface equally well
 			// apart from the last tie-breaker: which one is injected must not vary
@@ -294,17 +299,33 @@ func (rn *runner) history(seed uint64, base *nject.Collection, c *ccase, items [
 					continue
 				}
 				ifaces := []int{tcOf(pI0), tcOf(pI1), tcOf(pI2), tcOf(pJ0)}
+				// mostly a type the chain itself puts out or returns: an annotation that leaked into
+				// the original provider then matters
+				pick := func() int {
+					var own []int
+					for _, q := range c.provs {
+						own = append(own, q.outs...)
+						own = append(own, q.innerIns...)
+					}
+					if len(own) > 0 && r.chance(3, 4) {
+						t := own[r.intn(len(own))]
+						if _, ok := tcToPool[t]; ok {
+							return t
+						}
+					}
+					return pool0types(r)
+				}
 				quietly(func() {
 					switch r.intn(5) {
 					case 0:
 						_ = tcToPool[ifaces[r.intn(len(ifaces))]].loose(p)
 						_ = tcToPool[ifaces[r.intn(len(ifaces))]].loose(p)
 					case 1:
-						_ = tcToPool[pool0types(r)].mustConsume(p)
+						_ = tcToPool[pick()].mustConsume(p)
 					case 2:
-						_ = tcToPool[pool0types(r)].consOpt(p)
+						_ = tcToPool[pick()].consOpt(p)
 					case 3:
-						_ = tcToPool[pool0types(r)].allowShadow(p)
+						_ = tcToPool[pick()].allowShadow(p)
 					default:
 						_ = collAnn[r.intn(len(collAnn))](p)
 					}
